@@ -17,6 +17,24 @@ CLAIMS = {
         "Static necessary conditions of the update rule, decided for every path/call site of the current tree: (1) no in-place write can reach a state tensor outside that state's own recurrence (this is how the SGD-grafting corruption of the gradient EMA was found); (2) the stages of one group step are ordered by their data dependences and one direction list flows through them, scaled by -lr and applied last; (3) the refresh predicate equals the documented schedule on the post-increment group step and the amortized computation runs only under it; (4) the group step counter is incremented exactly once by 1 and registered per group in optimizer state; (5) per-step hyperparameters are read from the loop's param group and reach the matching formal. NOT decided: the arithmetic of each recurrence (coefficients, exponents, bias-correction terms, contraction indices).",
         "Trusts the torch operation table in sv/tables.py (in-place / view / maybe-copy / fresh); points-to is a may-analysis (k=1 call strings quick, k=2 thorough) and can only err towards reporting.",
     ),
+    "C04": (
+        "DESIGN.md §3 C04",
+        "index-space typing (units-of-measure inference over all per-block lists, selectors and indices) + mask-completeness / guard-agreement checks + CFG path queries",
+        "Static, for every gradient-presence history at once: all per-block lists are typed by index space (global / local / global-masked / local-masked) from five seeds, and every compress_list, zip, multi-list foreach, list-class constructor and index use must combine one space; every masked list of every owner is re-derived from its unmasked twin with the right selector under a guard that agrees with the list's existence, and the re-mask is skipped only when the remembered selector is current; in-place writes on the step path hit masked or fresh lists only; an empty masked gradient list skips the group before the step counter; the gradient selector gets an entry for every block on every path. NOT decided: bit-for-bit equality of untouched tensors (follows from these facts plus torch semantics).",
+        "Trusts the five typing seeds listed in sv/spaces.py and the torch operation table; name prefixes are used only as a contradiction check against inferred spaces.",
+    ),
+    "C06": (
+        "DESIGN.md §3 C06",
+        "rank-variance taint of the control context of every collective / group-creating call along all call-graph paths (points-to call graph + index-space typing), typestate of the update_params buffer protocol, index-space typing of the DDP lists, sibling agreement of the three distribution copies",
+        "Static, over every schedule and gradient-presence pattern: (1) each collective or process-group-creating call must be reached in a rank-invariant control context with rank-invariant group arguments on every call path from __init__/step — the two defects named in the property text (rank starvation through the `continue` in step(), per-owner lazy DeviceMesh creation) are reported by this rule and listed as known findings; (2) update_params fills the local send buffers, gathers, and applies all gathered masked blocks to the global masked parameter list, with no other parameter write after the gather (replica identity); (3) the DDP lists live in the right index spaces and are re-masked on global selector change; (4) the DDP copy agrees with its HSDP/HybridShard siblings. NOT decided: numerical equality with the serial optimizer, the rounding bound.",
+        "Assumes (premises of the property) that parameter shapes, gradient presence per parameter, hyperparameters, world size and mesh layout are identical on all ranks; trusts the collective-sink table and torch 2.5.1's _get_all_submeshes(_init_backend=False).",
+    ),
+    "C13": (
+        "DESIGN.md §3 C13",
+        "try/except shape + dominance analysis on the CFG of both _amortized_computation copies, dtype-provenance of the value tested for finiteness, exhaustive interpretation of the tolerance-counter routine, write-through rule on subscript stores into masked lists (index-space typing)",
+        "Static: the matrix routine runs inside `try/except Exception` whose handler keeps the stored matrix, warns and records a failure (success recorded after the call, one tracker per block judged once); every copy_ into an inverse root / eigenbasis is dominated by a NaN/Inf test on the same value in its stored dtype raising PreconditionerValueError outside the try, the factor-matrix check dominates the routine, and the refresh dominates the parameter update; the counter routine is interpreted on all (outcomes, count, tolerance, block) cases; no subscript store on the step path goes into a masked (re-created) list — the rule that found the lost-counter defect. What remains assumed is torch semantics of isnan/isinf/copy_.",
+        "Trusts torch semantics of isnan / isinf / copy_ and the index-space typing seeds.",
+    ),
     "C17": (
         "DESIGN.md §3 C17",
         "abstract interpretation of the constructor's guard chains over the region partition of each argument (incl. NaN) + first-match evaluation of type-dispatch chains over the real MRO",
